@@ -68,7 +68,7 @@ def render_text(case):
             T.append('%sstring "%s"' % (lab, esc(decl[i - 1])))
         else:
             T.append("pr%d: proto" % i)
-    T.append("  endmodule")
+    T += ["lah: u8 0", "  lref L1", "  lref L2", "  lref L3", "  endmodule"]
     return "\n".join(T) + "\n"
 
 
@@ -165,7 +165,7 @@ def finding_key(key, engine, case, itn):
         # which label references head a section?  (MIR_load_module looks for lref items only at section heads)
         heads = any(it[0] == "lref" and la[0] == i + 1 for i, (it, la) in enumerate(zip(case["it"], case["lay"])))
         return "lref_not_filled:%s" % ("some_lref_heads_a_section" if heads else "no_lref_heads_a_section")
-    if key in ("lref_diff", "lref_addr"):
+    if key in ("lref_diff", "lref_addr", "lref_vs_laddr"):
         return "%s:%s" % (key, eng)
     if key == "crash":
         return "crash:%s" % eng
